@@ -109,6 +109,7 @@ def probe_eigenpairs(inp: Dict[str, Any]) -> Dict[str, Any]:
     A, B, nocc, nvirt, Cocc, Cvirt, ea_ei = _dense(mol)
     nov = nocc * nvirt
     E = r["cis_energies"]
+    unstable: List[int] = []
     for m in range(len(names)):
         Am, Bm = A[m], B[m]
         if np.abs(Am - Am.T).max() > 1e-10 or np.abs(Bm - Bm.T).max() > 1e-10:
@@ -120,6 +121,11 @@ def probe_eigenpairs(inp: Dict[str, Any]) -> Dict[str, Any]:
             ev = np.linalg.eigvals(M)
             ref = np.sort(np.sqrt(np.abs(ev.real)))
         n = inp["n_states"]
+        if ref[0] <= 1e-4:
+            # the dense response matrix has a non-positive eigenvalue: the reference is unstable at this (strongly distorted) geometry -
+            # outside the property's quantifier ("positive for a stable reference"); nothing is demanded of this member
+            unstable.append(m)
+            continue
         d = float(np.abs(E[m][:n] - ref[:n]).max())
         if d > max(20 * tol, 5e-7):
             bad.append(f"mol{m}: returned energies differ from the lowest dense eigenvalues by {d:.2e}: {E[m][:n].round(6).tolist()} vs {ref[:n].round(6).tolist()}"); kinds.add("lowest")
